@@ -26,6 +26,7 @@ const (
 	hdrRetag
 	hdrEmptyPayload
 	hdrRecodeProt
+	hdrTagPayload
 	hdrVariants
 )
 
@@ -195,6 +196,14 @@ func applyNetFault(tok []byte, op Op, donor []byte) ([]byte, bool) {
 			np = append(np, encodeHeadW(h.Major, h.Arg, 1)...)
 			np = append(np, p.Prot[h.Off+1:]...)
 			return asm([]byte{0xd2}, cborBstr(np), unprot, payload, sig), true
+		case hdrTagPayload:
+			// the same claims behind a tag the claims decoder skips (or not): the signed bytes differ
+			if !p.PayloadIsBstr {
+				return out, false
+			}
+			tags := [][]byte{{0xd9, 0xd9, 0xf7}, {0xc1}, {0xd8, 0x18}, {0xd9, 0xd9, 0xf7, 0xd9, 0xd9, 0xf7}}
+			np := append(append([]byte{}, tags[abs(op.B)%len(tags)]...), p.Payload...)
+			return asm([]byte{0xd2}, prot, unprot, cborBstr(np), sig), true
 		case hdrUntag:
 			return out[1:], true
 		case hdrRetag:
@@ -572,7 +581,7 @@ func (n *jnode) all(out *[]*jnode) {
 }
 
 var jsonSubst = []string{"null", "[]", "{}", `""`, "0", "-1", "true", "1e400", "1.5", `"a"`, "[null]", "[{}]", "[[]]",
-	`{"a":null}`, "4294967296", "-2147483649", "65536", `"AA=="`, `"!!!"`, `[1,2]`, "18446744073709551616"}
+	`{"a":null}`, "4294967296", "-2147483649", "65536", `"AA=="`, `"!!!"`, `[1,2]`, "18446744073709551616", "28672", "61695", "4351", "4352"}
 
 // applyJSONFault mutates the member tree of doc at node a with variant b.
 func applyJSONFault(doc []byte, a, b int) ([]byte, bool) {
